@@ -234,4 +234,6 @@ def check(ctx, run):
     dispatch.r11_3(ctx, run, rule='R13.7/R11.3', only=set(pub))
     from rules import walkers as _walkers
     _walkers.w_pair(ctx, run, 'R13.9/R05.14', only=lambda p_: p_.startswith('functions::array_'))
+    from rules import editing as _editing
+    _editing.r06_17(ctx, run, rule='R13.10/R06.17', only=lambda p_: p_.startswith('functions::array_'))
     return report.finish(run, level='other', explanation=EXPLANATION, assumptions=["A1: valid documents"])
